@@ -42,13 +42,17 @@ def variants_for(prop: str) -> list[dict]:
     return out
 
 
+_MODULE_FILES: dict[str, list[tuple[str, str]]] = {}
+
+
 def _copy_tree(repo_root: str, dst: str) -> None:
-    repo = Repo(repo_root)
+    if repo_root not in _MODULE_FILES:  # discovering the unit set once (threads share it; no canonicalisation needed here)
+        _MODULE_FILES[repo_root] = [(m.relpath, m.path) for m in Repo(repo_root, canonical=False).modules.values()]
     shutil.copy(os.path.join(repo_root, "pyproject.toml"), os.path.join(dst, "pyproject.toml"))
-    for m in repo.modules.values():
-        p = os.path.join(dst, m.relpath)
+    for relpath, path in _MODULE_FILES[repo_root]:
+        p = os.path.join(dst, relpath)
         os.makedirs(os.path.dirname(p), exist_ok=True)
-        shutil.copy(m.path, p)
+        shutil.copy(path, p)
 
 
 def _run_variant(prop: str, repo_root: str, v: dict) -> dict:
